@@ -18,7 +18,7 @@ theorem main_un (t : Tbl) (p : Policy) (y : Ex) (hly : Lic t p y) (ihy : Main t 
   exact loop_le t (Nat.le_max_right f1 f) (by simpa [topOf] using hl)
 
 theorem main_bin_reg (t : Tbl) (p : Policy) (l r : Ex) (o : Nat)
-    (hmp : mixParts t p o r = none) (hmo : t.mix o = none ∨ t.mand o = false)
+    (hmp : mixParts p o r = none) (hmo : t.mix o = none ∨ t.mand o = false)
     (hi : t.infx o = true) (hll : Lic t p l) (hlr : Lic t p r) (ihl : Main t p l) (ihr : Main t p r)
     (hL : p.dropL o l = true → StopsOp t p o l ∧ ChainOK t o l)
     (hR : p.dropR o r = true → Fits t p (t.rbp o) r) : Main t p (.bin l o r) := by
@@ -47,32 +47,32 @@ theorem main_bin_reg (t : Tbl) (p : Policy) (l r : Ex) (o : Nat)
   refine ⟨f2, ?_⟩
   have e1 : pr p (.bin l o r) ++ rest
       = wrap (p.dropL o l) (pr p l) ++ Tok.op o :: (wrap (p.dropR o r) (pr p r) ++ rest) := by
-    simp [pr]
+    rw [pr_bin_reg hmp]; simp
   rw [e1]; exact h2
 
 theorem main_bin_mix (t : Tbl) (p : Policy) (l r a b : Ex) (o s : Nat)
-    (hmp : mixParts t p o r = some (a, s, b))
+    (hmp : mixParts p o r = some (a, s, b)) (hmix : t.mix o = some s)
     (hi : t.infx o = true) (hll : Lic t p l) (hla : Lic t p a) (hlb : Lic t p b)
     (ihl : Main t p l) (iha : Main t p a) (ihb : Main t p b)
     (hsepLvl : t.infx s = true → t.lbp s < t.rbp o)
     (hL : p.dropL o l = true → StopsOp t p o l ∧ ChainOK t o l)
-    (hA : p.dropL s a = true → Fits t p (t.rbp o) a ∧ StopsOp t p s a)
-    (hB : p.dropR s b = true → Fits t p (t.rbp2 o) b) : Main t p (.bin l o r) := by
+    (hA : p.dropML o a = true → Fits t p (t.rbp o) a ∧ StopsOp t p s a)
+    (hB : p.dropMR o b = true → Fits t p (t.rbp2 o) b) : Main t p (.bin l o r) := by
   intro m rest res f hfit hst hl
-  obtain ⟨hmix, hr, hdrop⟩ := mixParts_some hmp
+  obtain ⟨hpm, hr⟩ := mixParts_some hmp
   obtain ⟨hlt, hchild⟩ := stopsAt_bin_mix hmp hst
   subst hr
   -- second operand `b` at level `rbp2 o`
-  obtain ⟨fb, hb⟩ := child t p b hlb ihb (p.dropR s b) (t.rbp2 o) rest (b, rest) 1 hB hchild
+  obtain ⟨fb, hb⟩ := child t p b hlb ihb (p.dropMR o b) (t.rbp2 o) rest (b, rest) 1 hB hchild
     (loop_stop t 0 _ _ b rest (noAbsorb_of_stopsOp_lt hlt))
   -- first operand `a` at level `rbp o`, followed by the separator
-  have hna : NoAbsorb t (t.rbp o) (Tok.op s :: (wrap (p.dropR s b) (pr p b) ++ rest)) := by
+  have hna : NoAbsorb t (t.rbp o) (Tok.op s :: (wrap (p.dropMR o b) (pr p b) ++ rest)) := by
     intro ⟨h1, h2⟩
     have := hsepLvl h1
     omega
-  obtain ⟨fa, ha⟩ := child t p a hla iha (p.dropL s a) (t.rbp o)
-    (Tok.op s :: (wrap (p.dropR s b) (pr p b) ++ rest))
-    (a, Tok.op s :: (wrap (p.dropR s b) (pr p b) ++ rest)) 1
+  obtain ⟨fa, ha⟩ := child t p a hla iha (p.dropML o a) (t.rbp o)
+    (Tok.op s :: (wrap (p.dropMR o b) (pr p b) ++ rest))
+    (a, Tok.op s :: (wrap (p.dropMR o b) (pr p b) ++ rest)) 1
     (fun hd => (hA hd).1) (fun hd => (show StopsAt t p a (Tok.op s :: _) from (hA hd).2))
     (loop_stop t 0 _ _ a _ hna)
   cases hfit with
@@ -89,8 +89,8 @@ theorem main_bin_mix (t : Tbl) (p : Policy) (l r a b : Ex) (o s : Nat)
   have hFf : f ≤ F := Nat.le_max_right _ f
   have hgetD : (t.mix o).getD 0 = s := by rw [hmix]; rfl
   have hloopl : loop t (F + 1) m (if p.dropL o l = true then topOf t l else none) l
-      (Tok.op o :: (wrap (p.dropL s a) (pr p a) ++
-        Tok.op s :: (wrap (p.dropR s b) (pr p b) ++ rest))) = some res := by
+      (Tok.op o :: (wrap (p.dropML o a) (pr p a) ++
+        Tok.op s :: (wrap (p.dropMR o b) (pr p b) ++ rest))) = some res := by
     simp only [loop, absorb_true hi hm hchain, parseE_le t hFa ha, mixNext_sep _ hmix,
       parseE_le t hFb hb, hgetD]
     exact loop_le t hFf (by simpa [topOf] using hl)
@@ -98,9 +98,9 @@ theorem main_bin_mix (t : Tbl) (p : Policy) (l r a b : Ex) (o s : Nat)
     (fun hd => (show StopsAt t p l (Tok.op o :: _) from (hL hd).1)) hloopl
   refine ⟨f2, ?_⟩
   have e1 : pr p (.bin l o (.bin a s b)) ++ rest
-      = wrap (p.dropL o l) (pr p l) ++ Tok.op o :: (wrap (p.dropL s a) (pr p a) ++
-        Tok.op s :: (wrap (p.dropR s b) (pr p b) ++ rest)) := by
-    simp [pr, wrap, hdrop]
+      = wrap (p.dropL o l) (pr p l) ++ Tok.op o :: (wrap (p.dropML o a) (pr p a) ++
+        Tok.op s :: (wrap (p.dropMR o b) (pr p b) ++ rest)) := by
+    rw [pr_bin_mix hpm]; simp
   rw [e1]; exact h2
 
 theorem main_node (t : Tbl) (p : Policy) (k : Nat) (args : ExList) (ih : MainL t p args) :
@@ -161,11 +161,11 @@ theorem main_all (t : Tbl) (p : Policy) : ∀ n,
       | binReg l o r hmp hmo hi hl hr hL hR =>
         simp only [Ex.size] at hs
         exact main_bin_reg t p l r o hmp hmo hi hl hr (ih.1 l (by omega) hl) (ih.1 r (by omega) hr) hL hR
-      | binMix l o r a s b hmp hi hl ha hb hsl hL hA hB =>
-        obtain ⟨_, hr, _⟩ := mixParts_some hmp
+      | binMix l o r a s b hmp hmix hi hl ha hb hsl hL hA hB =>
+        obtain ⟨_, hr⟩ := mixParts_some hmp
         subst hr
         simp only [Ex.size] at hs
-        exact main_bin_mix t p l _ a b o s hmp hi hl ha hb (ih.1 l (by omega) hl)
+        exact main_bin_mix t p l _ a b o s hmp hmix hi hl ha hb (ih.1 l (by omega) hl)
           (ih.1 a (by omega) ha) (ih.1 b (by omega) hb) hsl hL hA hB
     · intro es hs hlic
       cases hlic with
